@@ -229,14 +229,26 @@ def r4_inputs(ctx, cg):
     ctx.ok("C13.R4", ("leaspy.algo.base", "<package>"), None, "no store / in-place call through settings, dataset, data or table parameters", construct="package-wide scan of stores rooted at input parameters")
 
 
-def r5_shared_defaults(ctx, rid="C13.R5"):
+def r5_shared_defaults(ctx, rid="C13.R5", scope=None, title=None):
     """'not on which calls were made earlier': class-level / module-level containers and mutable default arguments outlive a call and
     are shared by every algorithm / model object of the process - nothing may be written through them (directly or through an alias)."""
     from ..effects import SharedDefaults
-    ctx.rule(rid, "no write through a class-level / module-level container or a mutable default argument (package-wide, through aliases)", 10)
+    ctx.rule(rid, title or "no write through a class-level / module-level container or a mutable default argument (package-wide, through aliases)", 10 if scope is None else 1)
     sd = SharedDefaults(ctx.ix)
     cg = callgraph(ctx)
     n = 0
+    if scope is not None:  # the same rule restricted to the modules whose name starts with `scope`
+        for f in ctx.ix.iter_funcs():
+            if not f.mod.startswith(scope):
+                continue
+            for node, desc in sd.writes(f) + sd.handed_over(f, cg):
+                ctx.violation(rid, f, node, desc + ": what is computed for one object is served to another one built later in the same process")
+            for d in getattr(f.node, "decorator_list", []):
+                dn = U(d.func) if isinstance(d, ast.Call) else U(d)
+                if dn.split(".")[-1] in ("lru_cache", "cache", "cached_property") and f.cls is not None:
+                    ctx.violation(rid, f, d, f"`@{dn}` memoises a method: its answer is computed from the object's state at the first call and returned unchanged afterwards")
+        ctx.ok(rid, (scope, "<package>"), None, f"no process-wide memo / shared container written in {scope}.*", construct=f"{scope}.*")
+        return
     for f in ctx.ix.iter_funcs():
         for node, desc in sd.writes(f) + sd.handed_over(f, cg):
             n += 1
